@@ -37,6 +37,9 @@ CLAIMED = {
  "C19": ("orders+conserve", "exact abstract interpretation over orderings (rangeCompare); enumerated-idiom structural rule (FILTER)", "DESIGN.md 4/C19",
          "Static, exhaustive decision that rangeCompare - the comparison every leaf of LocationLess bottoms out in - is a consistent three-way comparator for all 4683 orderings of six endpoints, and that FeatureSlice.Filter keeps an element exactly on the true edge of the filter call and returns the kept elements unmodified in table order. Selector grammar, LocationLess's recursion and the binary search are not decided.",
          "Exact for the comparison-only fragment; FILTER recognises the two idioms present or plausible (index list, direct append)."),
+ "C11": ("effects", "interprocedural ownership/effect analysis over go/ssa: type-partitioned abstract objects (root, cell type), summaries (may-write, may-return, stores) iterated to a least fixpoint, class-hierarchy resolution of interface and function-value calls, library axiom table", "DESIGN.md 4/C11",
+         "Static decision of the property itself up to the abstraction: for every operation in the derived table (110 functions today, incl. the 16 named by the property) no write executed by the operation or anything it calls - stores, append into spare capacity, copy, library mutators, writes through sub-slices - can land in memory reachable from its arguments. The analysis may report a write that cannot alias, but cannot miss one inside the repository's code.",
+         "Library axiom table (pure packages, named mutators of their argument, receiver-only writers, higher-order pure functions); open-world callbacks behind Shiftable/Expandable are assumed not to write their receiver; reviewed exception (*Origin).Bytes (idempotent representation cache); no unsafe in the repository."),
  "C13": ("integrity", "must-check / must-pass-through / ordering rules: typestate along go/cfg paths, error-handling idiom matching, sibling cross-check of Open vs CreateLevel, constant-factor agreement", "DESIGN.md 4/C13",
          "Static decision that cache.Open can return a nil error only after the header was read in full (INT-4), the body digest covers every byte after the header (INT-3), all three digests were compared with the right operands and no error dropped (INT-1/2), the file name binds both key digests identically in reader and writer (INT-5), the writer finalises the header last with a consistent layout (INT-6), failed finalisation removes the entry (INT-8) and replay happens only after a valid open (REPLAY). Decides the structural necessary conditions, not the byte-level enumeration of corruptions.",
          "Trusts sha1 collision resistance, compress/flate's round trip, bytes.Equal/io.Copy/os.File semantics and the file system; field and method names of cmd/cache are anchors."),
